@@ -12,8 +12,13 @@
 from __future__ import annotations
 
 import ast
+import base64
+import binascii
 import contextlib
 import itertools
+import re
+import struct
+import textwrap
 from typing import Callable, Dict, Iterable, List, Optional, Sequence, Tuple
 
 from sa.astx import dotted, src, walk_local
@@ -88,9 +93,21 @@ _PURE_METHODS = {"startswith", "endswith", "replace", "strip", "lstrip", "rstrip
                  "encode", "decode", "lower", "upper", "split", "rsplit", "splitlines", "isdigit", "isalpha", "isalnum",
                  "isspace", "get", "items", "keys", "values", "partition", "rpartition", "hex", "zfill", "title",
                  "union", "difference", "intersection", "issubset", "issuperset", "copy", "format", "translate",
-                 "to_bytes", "bit_length", "ljust", "rjust", "center", "expandtabs", "isupper", "islower", "capitalize"}
+                 "to_bytes", "bit_length", "removeprefix", "removesuffix", "ljust", "rjust", "center", "expandtabs", "isupper", "islower", "capitalize"}
 # codecs whose behaviour is *under test* must not be evaluated by borrowing the running interpreter's
-_FORBIDDEN_CODECS = {"utf-7", "utf7", "utf_7", "imap4-utf-7", "imap4_utf_7", "xtext"}
+# codecs implemented by the repository itself are never borrowed from the running interpreter (stdlib codecs are)
+_FORBIDDEN_CODECS = {"imap4-utf-7", "imap4_utf_7", "xtext"}
+
+# stdlib functions whose documented semantics the evaluator delegates to CPython (never repository code)
+STDLIB = {"re.compile": re.compile, "re.escape": re.escape, "re.sub": re.sub, "re.subn": re.subn, "re.match": re.match, "re.search": re.search,
+          "re.fullmatch": re.fullmatch, "re.split": re.split, "re.findall": re.findall,
+          "struct.pack": struct.pack, "struct.unpack": struct.unpack, "struct.calcsize": struct.calcsize, "struct.Struct": struct.Struct,
+          "textwrap.wrap": textwrap.wrap, "binascii.b2a_base64": binascii.b2a_base64, "binascii.a2b_base64": binascii.a2b_base64,
+          "base64.b64encode": base64.b64encode, "base64.b64decode": base64.b64decode}
+_RE_FLAGS = {"re." + n: getattr(re, n) for n in ("I", "IGNORECASE", "M", "MULTILINE", "S", "DOTALL", "X", "VERBOSE", "A", "ASCII")}
+_OBJECT_METHODS = {re.Pattern: {"sub", "subn", "match", "search", "fullmatch", "split", "findall"},
+                   re.Match: {"group", "groups", "start", "end", "span", "groupdict"},
+                   struct.Struct: {"pack", "unpack", "unpack_from"}}
 
 
 def peval(node: ast.AST, env: Optional[Dict[str, object]] = None, funcs: Optional[Dict[str, Callable]] = None):
@@ -114,6 +131,17 @@ def peval(node: ast.AST, env: Optional[Dict[str, object]] = None, funcs: Optiona
         d = dotted(node)
         if d is not None and d in env:
             return env[d]
+        if d in _RE_FLAGS:
+            return _RE_FLAGS[d]
+        if d is not None and d in STDLIB and d not in funcs:
+            return STDLIB[d]
+        if node.attr in ("size", "pattern", "flags"):
+            try:
+                base = peval(node.value, env, funcs)
+            except NotPure:
+                base = None
+            if isinstance(base, (struct.Struct, re.Pattern)):
+                return getattr(base, node.attr)
         raise NotPure("attribute " + src(node))
     if isinstance(node, ast.Tuple):
         return tuple(_elts(node.elts, ev))
@@ -205,7 +233,8 @@ def peval(node: ast.AST, env: Optional[Dict[str, object]] = None, funcs: Optiona
             return peval(_b, e2, funcs)
         return lam
     if isinstance(node, ast.Call):
-        if node.keywords and not (isinstance(node.func, ast.Attribute) and node.func.attr in ("encode", "decode", "to_bytes")):
+        if node.keywords and not (isinstance(node.func, ast.Attribute) and node.func.attr in ("encode", "decode", "to_bytes", "sub", "split", "subn")) \
+                and not ((dotted(node.func) or "") in STDLIB):
             raise NotPure("keywords in call " + src(node))
         kw = {k.arg: ev(k.value) for k in node.keywords if k.arg}
         fn = dotted(node.func)
@@ -217,6 +246,11 @@ def peval(node: ast.AST, env: Optional[Dict[str, object]] = None, funcs: Optiona
                 args.append(ev(a))
         if fn is not None and fn in funcs:
             return _guard(lambda: funcs[fn](*args))
+        if fn is not None and fn in STDLIB and fn not in env:
+            if fn.startswith("re.") and fn != "re.escape" and fn != "re.compile" and len(args) > 1 and callable(args[1]) \
+                    and getattr(args[1], "__name__", "") not in ("lam", "_interp"):
+                raise NotPure("callable replacement")
+            return _guard(lambda: STDLIB[fn](*args, **kw))
         if fn is not None and fn in env and callable(env[fn]):
             return _guard(lambda: env[fn](*args))
         if fn == "map" and len(args) == 2 and callable(args[0]):
@@ -244,6 +278,17 @@ def peval(node: ast.AST, env: Optional[Dict[str, object]] = None, funcs: Optiona
             target = ev(node.func)
             if callable(target) and getattr(target, "__name__", "") in ("lam", "<lambda>", "_interp"):
                 return _guard(lambda: target(*args))
+        if isinstance(node.func, ast.Attribute):
+            try:
+                robj = ev(node.func.value) if not any(isinstance(x, ast.Call) and isinstance(x.func, ast.Attribute) and x.func.attr in ("pop", "next")
+                                                      for x in ast.walk(node.func.value)) else None
+            except NotPure:
+                robj = None
+            for typ, allowed in _OBJECT_METHODS.items():
+                if isinstance(robj, typ) and node.func.attr in allowed:
+                    if args and callable(args[0]) and getattr(args[0], "__name__", "") not in ("lam", "_interp"):
+                        raise NotPure("callable replacement")
+                    return _guard(lambda: getattr(robj, node.func.attr)(*args, **kw))
         if isinstance(node.func, ast.Attribute) and node.func.attr in _PURE_METHODS:
             recv = ev(node.func.value)
             if isinstance(recv, (str, bytes, bytearray, tuple, list, dict, set, frozenset, int)):
@@ -370,6 +415,31 @@ def module_env(mod, funcs=None, names: Optional[Iterable[str]] = None) -> Dict[s
     return env
 
 
+def class_env(classes, env: Dict[str, object], funcs=None, prefix: str = "self.") -> Dict[str, object]:
+    """Class-level constants (``name = <pure expr>``, e.g. a precompiled regex) of the given ClassDef nodes - base classes
+    first, most derived last - as ``{"self.name": value}`` on top of ``env`` (a copy is returned)."""
+    out = dict(env)
+    for c in classes:
+        local = dict(out)
+        for st in c.body:
+            tgt = val = None
+            if isinstance(st, ast.Assign) and len(st.targets) == 1 and isinstance(st.targets[0], ast.Name):
+                tgt, val = st.targets[0].id, st.value
+            elif isinstance(st, ast.AnnAssign) and isinstance(st.target, ast.Name) and st.value is not None:
+                tgt, val = st.target.id, st.value
+            if tgt is None:
+                continue
+            try:
+                v = peval(val, local, funcs)
+            except (NotPure, Raised):
+                continue
+            if callable(v) and not isinstance(v, type):
+                continue
+            local[tgt] = v
+            out[prefix + tgt] = v
+    return out
+
+
 # ---- loop-free block evaluation -------------------------------------------------------------------------
 
 class BlockResult:
@@ -396,7 +466,7 @@ def eval_block(stmts: Sequence[ast.stmt], env: Dict[str, object], sink: Callable
     for st in stmts:
         if res.returned or res.raised or res.flow:
             break
-        if isinstance(st, ast.Pass) or (isinstance(st, ast.Expr) and isinstance(st.value, ast.Constant)):
+        if isinstance(st, (ast.Pass, ast.Import, ast.ImportFrom)) or (isinstance(st, ast.Expr) and isinstance(st.value, ast.Constant)):
             continue
         if isinstance(st, ast.Assign):
             v = _pe(st.value, env, funcs)
